@@ -225,7 +225,21 @@ func runC18(c *fw.Ctx, idx int) fw.Result {
 	case "non-iupac":
 		mutRec(func(rc *gen.FastaRec) {
 			s := []byte(rc.Seq)
-			s[(idx*7)%len(s)] = "JZ*0.x"[idx%6]
+			// letters outside the alphabet, digits, punctuation and control bytes (a carriage
+			// return that is not part of a line end, 0x1F, NUL, DEL, a high-bit byte)
+			bad := "JZ*0.x\r\x1f\x00\x7f\xe9"
+			ch := bad[(idx+posIndex(len(bad), pos))%len(bad)]
+			p := (idx * 7) % len(s)
+			if ch == '\r' {
+				// at the end of a (wrapped) line a CR would just make a CRLF line end, which is legal
+				for p%60 == 59 || p == len(s)-1 {
+					p--
+				}
+				if p < 0 {
+					p, ch = 0, 'J'
+				}
+			}
+			s[p] = ch
 			rc.Seq = string(s)
 		})
 	case "missing-file":
